@@ -86,7 +86,7 @@ def translation_clause(model, rep, funcs):
         forms[a] = (tuple(repr(c) for c in comps), repr(sc))
         # binsize == 1 shortcut
         first = [n for n in f.node.body if isinstance(n, ast.If)]
-        ok1 = bool(first) and norm_src(first[0].test) == "binsize == 1" and "return self.copy()" in norm_src(first[0])
+        ok1 = Matcher(f).has("if binsize == 1:\n    return self.copy()") or Matcher(f).has("if binsize == 1:\n    return self.copy()\nelse:\n    ...")
         rep.ob("SLOT", a, "binsize == 1 returns an unchanged copy", ok1, "", node=f.node, fn=f, clause="translation", stmt=f"def binning b1 ({a.split('::')[1]})")
     if len(forms) == 2:
         rep.ob("S11", "binning siblings", "single and batch loaders compute the same translation and scale", len(set(forms.values())) == 1, f"{forms}",
